@@ -209,6 +209,19 @@ def check_case(case):
                     df, _ = quiet_call(s.solve, ta=ta)
                     obs = observe(df)
                     res.stats["evaluations"] += 1
+                    if hows[0] in ("below-min", "above-max") and not neg and any(c["k"] == "PMux" for c in sp["comps"]):
+                        # the warnings survive a save / load round trip (each component is reloaded with ITS limits)
+                        import os
+                        from ..common import workdir
+                        from sysloss.system import System
+                        pth = os.path.join(workdir("c09"), "w.json")
+                        s.save(pth)
+                        s2, _ = quiet_call(System.from_file, pth)
+                        o2 = observe(quiet_call(s2.solve, ta=ta)[0])
+                        for ph in phases:
+                            for m in d:
+                                if str(o2[(ph, m)].get("Warnings", "")) != str(obs[(ph, m)].get("Warnings", "")):
+                                    res.v(("C09.tokens-after-reload", d[m]["k"]), "phase %r %s: %r after save/from_file, %r before" % (ph, m, o2[(ph, m)].get("Warnings"), obs[(ph, m)].get("Warnings")))
                     res.stats["transitions"] += 1
                     for ph in phases:
                         for m in d:
